@@ -251,6 +251,28 @@ def build():
     one(r"pub\s+fn\s+expired\(&self\)\s*->\s*bool\s*\{\s*let\s+elapsed\s*=\s*self\.created_at\.elapsed\(\);\s*elapsed\s*>\s*self\.valid_for\s*\}", nd, "Node::expired")
     one(r"let\s+ce\s*=\s*self\.node_cache\.get\(name\)\.await\?;\s*if\s+ce\.expired\(\)\s*\{\s*return\s+None;\s*\}", nd, "cache_lookup drops expired nodes")
 
+    # ---- the validating transport: which header flags the client gets
+    vt = strip_comments(read("src/net/client/validator.rs"))
+    gri = fn_body(vt, "get_response_impl")
+    with_ad = len(re.findall(r"if\s+self\.cd\s*\{\s*if\s+self\.dnssec_ok\s*\{\s*if\s+response_msg\.header\(\)\.ad\(\)\s*\|\|\s*!response_msg\.header\(\)\.cd\(\)\s*\{", gri))
+    without_ad = len(re.findall(r"if\s+self\.cd\s*\{\s*if\s+self\.dnssec_ok\s*\{\s*if\s+!response_msg\.header\(\)\.cd\(\)\s*\{", gri))
+    if with_ad + without_ad != 1:
+        raise GenError("validator transport: CD+DO pass-through condition not recognised")
+    defs.append(("conn_cd_do_repairs_ad", "bool", "true" if with_ad else "false"))
+    one(r"response_msg\.header_mut\(\)\.set_ad\(false\);\s*response_msg\.header_mut\(\)\.set_cd\(true\);", gri, "transport: CD+DO repair clears AD, sets CD")
+    one(r"let\s+msg\s*=\s*remove_dnssec\(&response_msg,\s*false,\s*self\.cd\);", gri, "transport: CD without DO strips DNSSEC, AD false")
+    one(r"self\.dnssec_ok\s*=\s*self\.request_msg\.dnssec_ok\(\);", gri, "transport: DO of the request")
+    one(r"self\.cd\s*=\s*self\.request_msg\.header\(\)\.cd\(\);", gri, "transport: CD of the request")
+    one(r"ValidationState::Secure\s*=>\s*\{\s*if\s+self\.dnssec_ok\s*\{\s*let\s+mut\s+response_msg\s*=\s*Message::from_octets\(\s*response_msg\s*\.as_slice\(\)\s*\.to_vec\(\),?\s*\)\?;\s*response_msg\s*\.header_mut\(\)\s*\.set_ad\(true\);\s*response_msg\s*\.header_mut\(\)\s*\.set_cd\(false\);", gri, "transport: secure sets AD, clears CD")
+    one(r"remove_dnssec\(\s*response_msg,\s*self\.request_msg\.header\(\)\.ad\(\),\s*false,?\s*\)", gri, "transport: secure without DO: AD as requested")
+    one(r"ValidationState::Bogus\s*=>\s*\{\s*serve_fail\(response_msg,\s*opt_ede\)", gri, "transport: bogus is SERVFAIL")
+    if len(re.findall(r"set_ad\(true\)", gri)) != 1:
+        raise GenError("validator transport: AD is set in more than one place")
+    sfb = fn_body(vt, "serve_fail")
+    one(r"target\.header_mut\(\)\.set_rcode\(Rcode::SERVFAIL\);\s*target\.header_mut\(\)\.set_ad\(false\);", sfb, "serve_fail clears AD")
+    rdb = fn_body(vt, "remove_dnssec")
+    one(r"if\s+ad\s*!=\s*source\.header\(\)\.ad\(\)\s*\{\s*target\.header_mut\(\)\.set_ad\(ad\);\s*\}\s*if\s+cd\s*!=\s*source\.header\(\)\.cd\(\)\s*\{\s*target\.header_mut\(\)\.set_cd\(cd\);", rdb, "remove_dnssec sets AD / CD as told")
+
     # ---- the node cache path
     gn = fn_body(ctx, "get_node")
     fc = fn_body(ctx, "find_closest_node")
